@@ -506,7 +506,7 @@ pub fn wrapped_contract() -> Box<dyn Contract<Empty>> {
 // ------------------------------------------------------------------------------------------------
 // address computation for `bind`
 
-pub fn classic_addr(app: &App, code_id: u64, instance: u64) -> String {
+pub fn classic_addr<A: Api>(app: &AppOf<A>, code_id: u64, instance: u64) -> String {
     let mut st = cosmwasm_std::testing::MockStorage::new();
     SimpleAddressGenerator
         .contract_address(app.api(), &mut st, code_id, instance)
@@ -649,6 +649,58 @@ fn compute_sym_legacy(_app: &AppOf<LegacyApi>, sym: &str) -> Option<String> {
         return Some(sym.to_string());
     }
     None
+}
+
+/// App whose Api is the crate's own `MockApiBech32` with prefix `juno`
+pub fn bech_app() -> AppOf<cw_multi_test::MockApiBech32> {
+    AppBuilder::new().with_api(cw_multi_test::MockApiBech32::new("juno")).build(cw_multi_test::no_init)
+}
+
+fn compute_sym_bech(app: &AppOf<cw_multi_test::MockApiBech32>, sym: &str) -> Option<String> {
+    if let Some(rest) = sym.strip_prefix('c') {
+        if let Some((c, i)) = rest.split_once('_') {
+            if let (Ok(c), Ok(i)) = (c.parse::<u64>(), i.parse::<u64>()) {
+                return Some(classic_addr(app, c, i));
+            }
+        }
+    }
+    if sym == "creator" {
+        return Some(cosmwasm_std::testing::MockApi::default().addr_make("creator").to_string());
+    }
+    if sym.starts_with('u') || sym.starts_with('n') {
+        return Some(app.api().addr_make(sym).to_string());
+    }
+    None
+}
+
+pub fn exec_wasm_bech(lines: &[String]) -> Vec<String> {
+    exec_wasm_on(vec![bech_app(), bech_app(), bech_app()], compute_sym_bech, lines)
+}
+
+/// re-declares the `bind*` lines of a generated case with the addresses of the Bech32 App
+pub fn rebind_bech(lines: Vec<String>) -> Vec<String> {
+    let app = bech_app();
+    let mut syms: HashMap<String, String> = HashMap::new();
+    let mut out = vec![];
+    for l in lines {
+        let t: Vec<&str> = l.split(' ').collect();
+        if t[0] == "bind" && t.len() >= 3 {
+            let r = compute_sym_bech(&app, t[1]).unwrap_or_else(|| t[2].to_string());
+            syms.insert(t[1].to_string(), r.clone());
+            out.push(format!("bind {} {}", t[1], r));
+        } else if t[0] == "bind2" && t.len() >= 5 {
+            let creator = syms.get(t[2]).cloned().unwrap_or_else(|| t[2].to_string());
+            let r = salted_addr(&app, &default_checksum(t[1].parse().unwrap_or(0)), &creator, &unhex(t[3]));
+            out.push(format!("bind2 {} {} {} {}", t[1], t[2], t[3], r));
+        } else if t[0] == "bind2x" && t.len() >= 5 {
+            let creator = syms.get(t[2]).cloned().unwrap_or_else(|| t[2].to_string());
+            let r = salted_addr(&app, &unhex(t[1]), &creator, &unhex(t[3]));
+            out.push(format!("bind2x {} {} {} {}", t[1], t[2], t[3], r));
+        } else {
+            out.push(l);
+        }
+    }
+    out
 }
 
 pub fn exec_wasm_legacy(lines: &[String]) -> Vec<String> {
